@@ -358,33 +358,52 @@ theorem RelL.append_replicate {es F : List Int} {now : Int} (h : RelL es F now) 
     rw [List.replicate_succ', ← List.append_assoc, ← List.append_assoc]
     exact ih.append
 
+/-- What `check` does to `st k a` and what it answers. -/
+def checkL (now : Int) (es : List Int) : List Int × Bool :=
+  if es = [] then ([], false) else if blocked now es then (es, true) else (filterEntries now es, false)
+
+theorem checkL_refines {es F : List Int} {last now : Int} (h : RelL es F last) (hl : last ≤ now) :
+    RelL (checkL now es).1 F now ∧ (checkL now es).2 = specRefused now F ∧
+    ((checkL now es).2 = false → (checkL now es).1.length = ageCount now F) := by
+  have hb := h.blocked_eq hl
+  obtain ⟨hf, hlen⟩ := h.filter hl
+  unfold checkL
+  by_cases h0 : es = []
+  · subst h0
+    have : blocked now [] = false := by simp [blocked]
+    refine ⟨by simpa using h.advance hl, by simp [← hb, this], ?_⟩
+    intro _; simpa [filterEntries] using hlen
+  · by_cases hbl : blocked now es = true
+    · simp only [h0, hbl, if_false, if_true]
+      exact ⟨h.advance hl, by rw [← hb, hbl], by simp⟩
+    · have hbl' : blocked now es = false := by simpa using hbl
+      simp only [h0, hbl', if_false, Bool.false_eq_true]
+      exact ⟨hf, by rw [← hb, hbl'], fun _ => hlen⟩
+
 /-- What `step (.par ..)` does to `st k a`. -/
-def parL (now : Int) (es : List Int) (n : Nat) : List Int × Out :=
-  if es ≠ [] ∧ blocked now es then (es, .rest 0 (youngCount now es) true [])
-  else
-    let es0 := filterEntries now es
-    let es' := es0 ++ List.replicate n now
-    (es', .rest n (youngCount now es') (blocked now es')
-            ((List.range n).map fun i => getDelay (es0.length + i)))
+def parL (now : Int) (es : List Int) (n dt : Nat) : List Int × Out :=
+  let c1 := checkL now es
+  let p := if c1.2 then 0 else n
+  let c2 := checkL (now + dt) (c1.1 ++ List.replicate p now)
+  (c2.1, .rest p (youngCount (now + dt) c2.1) c2.2 ((List.range p).map fun i => getDelay (c1.1.length + i)))
 
 theorem parL_refines {es F : List Int} {last now : Int} (h : RelL es F last) (hl : last ≤ now)
-    (n : Nat) :
-    RelL (parL now es n).1 (specPar now F n).1 now ∧ (parL now es n).2 = (specPar now F n).2 := by
-  have hb := h.blocked_eq hl
-  have hnil : es = [] → blocked now es = false := by
-    intro h0; subst h0; simp [blocked]
+    (n dt : Nat) :
+    RelL (parL now es n dt).1 (specPar now F n dt).1 (now + dt) ∧
+    (parL now es n dt).2 = (specPar now F n dt).2 := by
+  obtain ⟨h1, h2, h3⟩ := checkL_refines h hl
   unfold parL specPar
+  simp only [h2]
+  have hrel := h1.append_replicate (if specRefused now F = true then 0 else n)
+  have hle : now ≤ now + (dt : Int) := by omega
+  obtain ⟨k1, k2, _⟩ := checkL_refines hrel hle
+  refine ⟨k1, ?_⟩
+  rw [youngCount_eq, k1.ageCount_eq (Int.le_refl _), k2]
+  congr 1
   by_cases hr : specRefused now F = true
-  · have hne : es ≠ [] := by
-      intro h0; have := hnil h0; rw [hb, hr] at this; cases this
-    simp [hr, hb, hne, h.advance hl, youngCount_eq, h.ageCount_eq hl]
+  · simp [hr]
   · have hr' : specRefused now F = false := by simpa using hr
-    obtain ⟨hf, hlen⟩ := h.filter hl
-    have hrel := hf.append_replicate n
-    have hle : now ≤ now := Int.le_refl _
-    simp only [hr', hb, Bool.false_eq_true, and_false, if_false]
-    refine ⟨hrel, ?_⟩
-    rw [youngCount_eq, hrel.ageCount_eq hle, hrel.blocked_eq hle, hlen]
+    rw [h3 (by rw [h2, hr'])]
 
 end SigModel.Throttle
 
@@ -393,25 +412,48 @@ open SigModel.Generated.Throttle
 
 /-! ### the whole table -/
 
-theorem step_par_at (st : State) (now : Int) (addr : Addr) (a : Action) (n : Nat) :
-    (step st (.par now addr a n)).1 (throttleKey addr) a = (parL now (st (throttleKey addr) a) n).1 ∧
-    (step st (.par now addr a n)).2 = (parL now (st (throttleKey addr) a) n).2 := by
-  unfold step par parL check
-  by_cases h0 : st (throttleKey addr) a = []
-  · simp [h0, State.set, filterEntries]
-  · by_cases hb : blocked now (st (throttleKey addr) a) = true
+theorem check_at (st : State) (now : Int) (k : Key) (a : Action) :
+    (check st now k a).1 k a = (checkL now (st k a)).1 ∧ (check st now k a).2 = (checkL now (st k a)).2 := by
+  unfold check checkL
+  by_cases h0 : st k a = []
+  · simp [h0]
+  · by_cases hb : blocked now (st k a) = true
     · simp [h0, hb]
     · simp [h0, hb, State.set]
 
-theorem step_par_frame (st : State) (now : Int) (addr : Addr) (a : Action) (n : Nat)
-    (k' : Key) (a' : Action) (hne : ¬ (k' = throttleKey addr ∧ a' = a)) :
-    (step st (.par now addr a n)).1 k' a' = st k' a' := by
-  unfold step par check
-  by_cases h0 : st (throttleKey addr) a = []
-  · simp [h0, State.set, hne]
-  · by_cases hb : blocked now (st (throttleKey addr) a) = true
+theorem check_frame (st : State) (now : Int) (k : Key) (a : Action) (k' : Key) (a' : Action)
+    (hne : ¬ (k' = k ∧ a' = a)) : (check st now k a).1 k' a' = st k' a' := by
+  unfold check
+  by_cases h0 : st k a = []
+  · simp [h0]
+  · by_cases hb : blocked now (st k a) = true
     · simp [h0, hb]
     · simp [h0, hb, State.set, hne]
+
+theorem step_par_at (st : State) (now : Int) (addr : Addr) (a : Action) (n dt : Nat) :
+    (step st (.par now addr a n dt)).1 (throttleKey addr) a = (parL now (st (throttleKey addr) a) n dt).1 ∧
+    (step st (.par now addr a n dt)).2 = (parL now (st (throttleKey addr) a) n dt).2 := by
+  obtain ⟨c1, c2⟩ := check_at st now (throttleKey addr) a
+  unfold step par parL
+  simp only []
+  generalize hst2 : ((check st now (throttleKey addr) a).1.set (throttleKey addr) a
+    ((check st now (throttleKey addr) a).1 (throttleKey addr) a ++
+      List.replicate (if (check st now (throttleKey addr) a).2 = true then 0 else n) now)) = st2
+  obtain ⟨d1, d2⟩ := check_at st2 (now + dt) (throttleKey addr) a
+  have hst2v : st2 (throttleKey addr) a = (checkL now (st (throttleKey addr) a)).1 ++
+      List.replicate (if (checkL now (st (throttleKey addr) a)).2 = true then 0 else n) now := by
+    rw [← hst2]; simp [State.set, c1, c2]
+  rw [d1, d2, hst2v, c1, c2]
+  exact ⟨rfl, rfl⟩
+
+theorem step_par_frame (st : State) (now : Int) (addr : Addr) (a : Action) (n dt : Nat)
+    (k' : Key) (a' : Action) (hne : ¬ (k' = throttleKey addr ∧ a' = a)) :
+    (step st (.par now addr a n dt)).1 k' a' = st k' a' := by
+  unfold step par
+  simp only []
+  rw [check_frame _ _ _ _ _ _ hne]
+  simp only [State.set, hne, if_false]
+  exact check_frame _ _ _ _ _ _ hne
 
 theorem step_attempt_at (st : State) (now : Int) (addr : Addr) (a : Action) (failed : Bool) :
     (step st (.attempt now addr a failed)).1 (throttleKey addr) a
@@ -440,10 +482,10 @@ theorem Rel.empty (t0 : Int) : Rel State.empty Hist.empty t0 := fun _ _ => RelL.
 
 theorem step_refines {st : State} {h : Hist} {last : Int} (hr : Rel st h last) (op : Op)
     (hl : last ≤ op.time) (hat : op.atomic = true) :
-    Rel (step st op).1 (specStep h op).1 op.time ∧ (step st op).2 = (specStep h op).2 := by
+    Rel (step st op).1 (specStep h op).1 op.endTime ∧ (step st op).2 = (specStep h op).2 := by
   cases op with
   | attempt now addr a failed =>
-    simp only [Op.time] at hl ⊢
+    simp only [Op.time, Op.endTime] at hl ⊢
     obtain ⟨h1, h2⟩ := step_attempt_at st now addr a failed
     obtain ⟨r1, r2⟩ := attemptL_refines (hr (throttleKey addr) a) hl failed
     constructor
@@ -457,25 +499,26 @@ theorem step_refines {st : State} {h : Hist} {last : Int} (hr : Rel st h last) (
         exact (hr k' a').advance hl
     · rw [h2, r2]; simp [specStep]
   | cleanup now =>
-    simp only [Op.time] at hl ⊢
+    simp only [Op.time, Op.endTime] at hl ⊢
     refine ⟨?_, rfl⟩
     intro k a
     exact ((hr k a).filter hl).1
   | checkOnly _ _ _ => simp [Op.atomic] at hat
   | throttleOnly _ _ _ => simp [Op.atomic] at hat
-  | par now addr a n =>
-    simp only [Op.time] at hl ⊢
-    obtain ⟨h1, h2⟩ := step_par_at st now addr a n
-    obtain ⟨r1, r2⟩ := parL_refines (hr (throttleKey addr) a) hl n
+  | par now addr a n dt =>
+    simp only [Op.time, Op.endTime] at hl ⊢
+    obtain ⟨h1, h2⟩ := step_par_at st now addr a n dt
+    obtain ⟨r1, r2⟩ := parL_refines (hr (throttleKey addr) a) hl n dt
+    have hle : last ≤ now + (dt : Int) := by omega
     constructor
     · intro k' a'
       by_cases hk : k' = throttleKey addr ∧ a' = a
       · obtain ⟨rfl, rfl⟩ := hk
         rw [h1]
         simpa [specStep, Hist.set] using r1
-      · rw [step_par_frame st now addr a n k' a' hk]
+      · rw [step_par_frame st now addr a n dt k' a' hk]
         simp only [specStep, Hist.set, hk, if_false]
-        exact (hr k' a').advance hl
+        exact (hr k' a').advance hle
     · rw [h2, r2]; simp [specStep]
 
 theorem run_refines : ∀ (ops : List Op) {st : State} {h : Hist} {last : Int},
@@ -496,27 +539,42 @@ end SigModel.Throttle
 namespace SigModel.Throttle
 open SigModel.Generated.Throttle
 
-/-! ### interleavings of concurrent `addEntry` calls
+/-! ### interleavings of concurrent failures and checks
 
-The regenerated critical sections of `addEntry` are one write-locked section that reads the entry list
-and writes the extended list.  Whatever the scheduler does with `n` such threads, the shared list ends
-up as the initial list followed by `n` new records. -/
+Threads run the regenerated critical sections of `addEntry` (record a failure) and of
+`CheckBruteforce` (read; on some paths a later section that reads again and writes the pruned list).
+Whatever the scheduler does, the shared entry list is always the full history (initial list followed by
+everything ever recorded, in recording order) minus a prefix of entries that some checking thread found
+older than twelve hours. -/
 
-/-- The regenerated fact, as the interleaving theorems use it (proved from the source's current
+/-- The regenerated facts, as the interleaving theorems use them (proved from the source's current
 sections in `Props/C17.lean`, `C17_atomicity_facts`). -/
 def AddEntryAtomic : Prop := addEntryPaths = [[("W", ["read", "write"])]]
+
+/-- No function that touches the table is handed an entry list from outside, and every critical section
+of `CheckBruteforce` that writes has read the list itself first. -/
+def CheckSelfContained : Prop :=
+  tableAccessorsWithListParam = [] ∧
+  checkBruteforcePaths.all (fun p => p.all fun sec => sec.2 == ["read"] || sec.2 == ["read", "write"]) = true
+
+def GoodSec (sec : List Acc) : Prop := sec = [Acc.read] ∨ sec = [Acc.read, Acc.write]
 
 theorem addEntryProgs_eq (hf : AddEntryAtomic) : addEntryProgs = [[[Acc.read, Acc.write]]] := by
   unfold addEntryProgs; rw [hf]; decide
 
-/-- Invariant of every schedule of `n` threads that each record a failure at `now` with the one-section
-program: as many records were appended as threads have finished. -/
-def ConcInv (init : List Int) (now : Int) (n : Nat) (c : Conc) : Prop :=
-  c.thr.length = n ∧
-  (∀ t ∈ c.thr, t.entry = now ∧ (t.todo = [[Acc.read, Acc.write]] ∨ t.todo = [])) ∧
-  c.shared = init ++ List.replicate (n - c.pending) now
-
-theorem Conc.pending_le (c : Conc) : c.pending ≤ c.thr.length := List.countP_le_length
+theorem checkProgs_good (hf : CheckSelfContained) : ∀ p ∈ checkProgs, ∀ sec ∈ p, GoodSec sec := by
+  obtain ⟨h1, h2⟩ := hf
+  intro p hp sec hsec
+  unfold checkProgs at hp
+  simp only [h1, List.isEmpty_nil, if_true, List.mem_map] at hp
+  obtain ⟨path, hpath, rfl⟩ := hp
+  simp only [progOf, List.mem_map] at hsec
+  obtain ⟨s, hs, rfl⟩ := hsec
+  have := List.all_eq_true.mp (List.all_eq_true.mp h2 path hpath) s hs
+  simp only [Bool.or_eq_true, beq_iff_eq] at this
+  rcases this with h | h
+  · left; rw [h]; decide
+  · right; rw [h]; decide
 
 theorem Conc.sched_none {c : Conc} {i : Nat} (hi : c.thr[i]? = none) : c.sched i = c := by
   unfold Conc.sched; rw [hi]
@@ -527,108 +585,205 @@ theorem Conc.sched_done {c : Conc} {i : Nat} {t : Thr} (hi : c.thr[i]? = some t)
 
 theorem Conc.sched_section {c : Conc} {i : Nat} {t : Thr} {sec : List Acc} {rest : Prog}
     (hi : c.thr[i]? = some t) (ht : t.todo = sec :: rest) :
-    c.sched i = ⟨(runSection t.entry c.shared t.loc sec).1,
-      c.thr.set i ⟨t.entry, rest, (runSection t.entry c.shared t.loc sec).2⟩⟩ := by
+    c.sched i = ⟨(runSection t.job ⟨c.shared, c.log, t.loc⟩ sec).shared,
+      (runSection t.job ⟨c.shared, c.log, t.loc⟩ sec).log,
+      c.thr.set i ⟨t.job, rest, (runSection t.job ⟨c.shared, c.log, t.loc⟩ sec).loc⟩⟩ := by
   unfold Conc.sched; rw [hi]; simp only [ht]
 
-theorem ConcInv.sched {init : List Int} {now : Int} {n : Nat} {c : Conc} (h : ConcInv init now n c)
-    (i : Nat) : ConcInv init now n (c.sched i) := by
-  obtain ⟨hlen, hthr, hsh⟩ := h
-  cases hi : c.thr[i]? with
-  | none => rw [Conc.sched_none hi]; exact ⟨hlen, hthr, hsh⟩
-  | some t =>
-    have hilt : i < c.thr.length := (List.getElem?_eq_some_iff.mp hi).1
-    have hget : c.thr[i] = t := (List.getElem?_eq_some_iff.mp hi).2
-    have hmem : t ∈ c.thr := List.mem_of_getElem? hi
-    obtain ⟨hent, htodo⟩ := hthr t hmem
-    rcases htodo with htodo | htodo
-    · -- the thread runs its only section: read the list, write it back extended
-      rw [Conc.sched_section hi htodo]
-      have hrun : runSection t.entry c.shared t.loc [Acc.read, Acc.write] = (c.shared ++ [now], c.shared) := by
-        simp [runSection, runAcc, hent]
-      rw [hrun]
-      have hp1 : (!(c.thr[i]).todo.isEmpty) = true := by rw [hget, htodo]; rfl
-      have hpend : Conc.pending ⟨c.shared ++ [now], c.thr.set i ⟨t.entry, [], c.shared⟩⟩ = c.pending - 1 := by
-        unfold Conc.pending
-        simp only []
-        rw [List.countP_set hilt]
-        simp only [hp1]
-        simp
-      have hpos : 0 < c.pending := by
-        unfold Conc.pending
-        exact List.countP_pos_iff.mpr ⟨t, hmem, by rw [htodo]; rfl⟩
-      have hple := c.pending_le
-      refine ⟨by simpa using hlen, ?_, ?_⟩
-      · intro t' ht'
-        rcases List.mem_or_eq_of_mem_set ht' with h1 | h1
-        · exact hthr t' h1
-        · subst h1; exact ⟨hent, Or.inr rfl⟩
-      · rw [hpend]
-        simp only []
-        rw [hsh, List.append_assoc, ← List.replicate_succ']
-        congr 2
-        omega
-    · rw [Conc.sched_done hi htodo]
-      exact ⟨hlen, hthr, hsh⟩
+theorem map_job_set (l : List Thr) (i : Nat) (t t' : Thr) (h : l[i]? = some t) (hj : t'.job = t.job) :
+    (l.set i t').map (·.job) = l.map (·.job) := by
+  induction l generalizing i with
+  | nil => simp
+  | cons x xs ih =>
+    cases i with
+    | zero => simp at h; subst h; simp [hj]
+    | succ i => simp at h; simp [ih i h]
 
-theorem ConcInv.run {init : List Int} {now : Int} {n : Nat} (schedule : List Nat) :
-    ∀ {c : Conc}, ConcInv init now n c → ConcInv init now n (c.run schedule) := by
+theorem pendingRec_set_other (l : List Thr) (i : Nat) (t t' : Thr) (h : l[i]? = some t)
+    (hn : t.job.isRecord = false) (hj : t'.job = t.job) :
+    (l.set i t').countP (fun t => t.job.isRecord && !t.todo.isEmpty) =
+      l.countP (fun t => t.job.isRecord && !t.todo.isEmpty) := by
+  have hilt : i < l.length := (List.getElem?_eq_some_iff.mp h).1
+  have hget : l[i] = t := (List.getElem?_eq_some_iff.mp h).2
+  rw [List.countP_set hilt, hget, hj, hn]; simp
+
+theorem pendingRec_set_done (l : List Thr) (i : Nat) (t t' : Thr) (h : l[i]? = some t)
+    (hr : t.job.isRecord = true) (hp : t.todo.isEmpty = false) (ht' : t'.todo = []) :
+    (l.set i t').countP (fun t => t.job.isRecord && !t.todo.isEmpty) + 1 =
+      l.countP (fun t => t.job.isRecord && !t.todo.isEmpty) := by
+  have hilt : i < l.length := (List.getElem?_eq_some_iff.mp h).1
+  have hget : l[i] = t := (List.getElem?_eq_some_iff.mp h).2
+  have hmem : t ∈ l := List.mem_of_getElem? h
+  have hpos : 0 < l.countP (fun t => t.job.isRecord && !t.todo.isEmpty) :=
+    List.countP_pos_iff.mpr ⟨t, hmem, by simp [hr, hp]⟩
+  rw [List.countP_set hilt, hget, ht', hr, hp]; simp; omega
+
+/-- Invariant of every schedule (jobs `J`, `nRec` of them recording). -/
+structure ConcInv (init : List Int) (J : List Job) (nRec : Nat) (c : Conc) : Prop where
+  jobs : c.thr.map (·.job) = J
+  good : ∀ t ∈ c.thr, ∀ sec ∈ t.todo, GoodSec sec
+  rec1 : ∀ t ∈ c.thr, t.job.isRecord = true → t.todo = [[Acc.read, Acc.write]] ∨ t.todo = []
+  cnt : c.log.length + c.pendingRec = nRec
+  logmem : ∀ x ∈ c.log, Job.record x ∈ J
+  sh : ∃ d, d ≤ (init ++ c.log).length ∧ c.shared = (init ++ c.log).drop d ∧
+    ∀ x ∈ (init ++ c.log).take d, ∃ now, Job.prune now ∈ J ∧ now - x > (maxBruteforceAge : Int)
+
+theorem ConcInv.sched {init : List Int} {J : List Job} {nRec : Nat} {c : Conc}
+    (h : ConcInv init J nRec c) (i : Nat) : ConcInv init J nRec (c.sched i) := by
+  cases hi : c.thr[i]? with
+  | none => rw [Conc.sched_none hi]; exact h
+  | some t =>
+    have hmem : t ∈ c.thr := List.mem_of_getElem? hi
+    have hjobJ : t.job ∈ J := by rw [← h.jobs]; exact List.mem_map.mpr ⟨t, hmem, rfl⟩
+    cases htodo : t.todo with
+    | nil => rw [Conc.sched_done hi htodo]; exact h
+    | cons sec rest =>
+      rw [Conc.sched_section hi htodo]
+      have hgood := h.good t hmem
+      have hsec : GoodSec sec := hgood sec (by rw [htodo]; simp)
+      have hrest : ∀ s ∈ rest, GoodSec s := fun s hs => hgood s (by rw [htodo]; simp [hs])
+      have hjobs : (c.thr.set i ⟨t.job, rest, (runSection t.job ⟨c.shared, c.log, t.loc⟩ sec).loc⟩).map (·.job) = J := by
+        exact (map_job_set c.thr i t ⟨t.job, rest, _⟩ hi rfl).trans h.jobs
+      have hgood' : ∀ t' ∈ c.thr.set i ⟨t.job, rest, (runSection t.job ⟨c.shared, c.log, t.loc⟩ sec).loc⟩,
+          ∀ s ∈ t'.todo, GoodSec s := by
+        intro t' ht'
+        rcases List.mem_or_eq_of_mem_set ht' with h1 | h1
+        · exact h.good t' h1
+        · subst h1; exact hrest
+      rcases hsec with hsec | hsec
+      · -- a section that only reads: nothing shared changes
+        subst hsec
+        have hnr : t.job.isRecord = false := by
+          cases hr : t.job.isRecord with
+          | false => rfl
+          | true =>
+            rcases h.rec1 t hmem hr with h1 | h1
+            · rw [htodo] at h1; simp at h1
+            · rw [htodo] at h1; simp at h1
+        have hrun : runSection t.job ⟨c.shared, c.log, t.loc⟩ [Acc.read] = ⟨c.shared, c.log, c.shared⟩ := by
+          simp [runSection, runAcc]
+        rw [hrun] at hjobs hgood' ⊢
+        refine ⟨hjobs, hgood', ?_, ?_, h.logmem, h.sh⟩
+        · intro t' ht' hr'
+          rcases List.mem_or_eq_of_mem_set ht' with h1 | h1
+          · exact h.rec1 t' h1 hr'
+          · subst h1; simp [hnr] at hr'
+        · have := pendingRec_set_other c.thr i t ⟨t.job, rest, c.shared⟩ hi hnr rfl
+          unfold Conc.pendingRec
+          simp only []
+          rw [this]; exact h.cnt
+      · subst hsec
+        cases hjob : t.job with
+        | record e =>
+          have hr : t.job.isRecord = true := by rw [hjob]; rfl
+          have hrest0 : rest = [] := by
+            rcases h.rec1 t hmem hr with h1 | h1
+            · rw [htodo] at h1; simpa using h1
+            · rw [htodo] at h1; simp at h1
+          subst hrest0
+          have hrun : runSection (Job.record e) ⟨c.shared, c.log, t.loc⟩ [Acc.read, Acc.write]
+              = ⟨c.shared ++ [e], c.log ++ [e], c.shared⟩ := by
+            simp [runSection, runAcc]
+          rw [hjob] at hjobs hgood'
+          rw [hrun] at hjobs hgood' ⊢
+          refine ⟨hjobs, hgood', ?_, ?_, ?_, ?_⟩
+          · intro t' ht' hr'
+            rcases List.mem_or_eq_of_mem_set ht' with h1 | h1
+            · exact h.rec1 t' h1 hr'
+            · subst h1; exact Or.inr rfl
+          · have := pendingRec_set_done c.thr i t ⟨Job.record e, [], c.shared⟩ hi hr (by rw [htodo]; rfl) rfl
+            have hc := h.cnt
+            unfold Conc.pendingRec at hc ⊢
+            simp only [List.length_append, List.length_singleton]
+            omega
+          · intro x hx
+            simp only [List.mem_append, List.mem_singleton] at hx
+            rcases hx with hx | rfl
+            · exact h.logmem x hx
+            · rw [← hjob]; exact hjobJ
+          · obtain ⟨d, hd, hsh, hold⟩ := h.sh
+            refine ⟨d, by simp only [List.length_append] at hd ⊢; simp; omega, ?_, ?_⟩
+            · simp only []
+              rw [hsh, ← List.append_assoc, List.drop_append_of_le_length hd]
+            · intro x hx
+              rw [← List.append_assoc, List.take_append_of_le_length hd] at hx
+              exact hold x hx
+        | prune now =>
+          have hnr : t.job.isRecord = false := by rw [hjob]; rfl
+          have hrun : runSection (Job.prune now) ⟨c.shared, c.log, t.loc⟩ [Acc.read, Acc.write]
+              = ⟨filterEntries now c.shared, c.log, c.shared⟩ := by
+            simp [runSection, runAcc]
+          rw [hjob] at hjobs hgood'
+          rw [hrun] at hjobs hgood' ⊢
+          refine ⟨hjobs, hgood', ?_, ?_, h.logmem, ?_⟩
+          · intro t' ht' hr'
+            rcases List.mem_or_eq_of_mem_set ht' with h1 | h1
+            · exact h.rec1 t' h1 hr'
+            · subst h1; simp [Job.isRecord] at hr'
+          · have := pendingRec_set_other c.thr i t ⟨Job.prune now, rest, c.shared⟩ hi hnr hjob.symm
+            unfold Conc.pendingRec
+            simp only []
+            rw [this]; exact h.cnt
+          · obtain ⟨d, hd, hsh, hold⟩ := h.sh
+            obtain ⟨n, hn1, hn2, hn3, _⟩ := filterEntries_eq_drop now c.shared
+            have hlen : c.shared.length = (init ++ c.log).length - d := by rw [hsh]; simp
+            refine ⟨d + n, by simp only []; omega, ?_, ?_⟩
+            · simp only []
+              rw [hn1, hsh, List.drop_drop]
+            · intro x hx
+              rw [List.take_add] at hx
+              simp only [List.mem_append] at hx
+              rcases hx with hx | hx
+              · exact hold x hx
+              · refine ⟨now, by rw [← hjob]; exact hjobJ, ?_⟩
+                rw [← hsh] at hx
+                exact hn3 x hx
+
+theorem ConcInv.run {init : List Int} {J : List Job} {nRec : Nat} (schedule : List Nat) :
+    ∀ {c : Conc}, ConcInv init J nRec c → ConcInv init J nRec (c.run schedule) := by
   induction schedule with
   | nil => intro c h; exact h
   | cons i is ih => intro c h; exact ih (h.sched i)
 
-theorem ConcInv.start (hf : AddEntryAtomic) (init : List Int) (now : Int) (progs : List Prog)
-    (hp : ∀ p ∈ progs, p ∈ addEntryProgs) : ConcInv init now progs.length (Conc.start init now progs) := by
-  rw [addEntryProgs_eq hf] at hp
-  have hall : ∀ p ∈ progs, p = [[Acc.read, Acc.write]] := fun p h => by simpa using hp p h
-  refine ⟨by simp [Conc.start], ?_, ?_⟩
-  · intro t ht
+/-- Threads whose programs are regenerated paths of the method they run. -/
+def WellFormed (ts : List (Job × Prog)) : Prop :=
+  ∀ jp ∈ ts, (jp.1.isRecord = true → jp.2 ∈ addEntryProgs) ∧ (jp.1.isRecord = false → jp.2 ∈ checkProgs)
+
+instance (ts : List (Job × Prog)) : Decidable (WellFormed ts) := by
+  unfold WellFormed; infer_instance
+
+/-- The state after the threads `ts` have been scheduled as `schedule` says. -/
+def Conc.after (init : List Int) (ts : List (Job × Prog)) (schedule : List Nat) : Conc :=
+  (Conc.start init ts).run schedule
+
+theorem ConcInv.start (ha : AddEntryAtomic) (hc : CheckSelfContained) (init : List Int)
+    (ts : List (Job × Prog)) (hw : WellFormed ts) :
+    ConcInv init (ts.map (·.1)) (ts.countP (·.1.isRecord)) (Conc.start init ts) := by
+  have hrec : ∀ jp ∈ ts, jp.1.isRecord = true → jp.2 = [[Acc.read, Acc.write]] := by
+    intro jp hjp hr
+    have := (hw jp hjp).1 hr
+    rw [addEntryProgs_eq ha] at this
+    simpa using this
+  refine ⟨by simp [Conc.start], ?_, ?_, ?_, by simp [Conc.start], ⟨0, by simp, by simp [Conc.start], by simp⟩⟩
+  · intro t ht sec hsec
     simp only [Conc.start, List.mem_map] at ht
-    obtain ⟨p, hpm, rfl⟩ := ht
-    exact ⟨rfl, Or.inl (hall p hpm)⟩
-  · have : (Conc.start init now progs).pending = progs.length := by
-      unfold Conc.pending Conc.start
-      simp only [List.countP_map]
-      rw [List.countP_eq_length.mpr]
-      intro p hpm
-      simp [hall p hpm]
-    rw [this]; simp [Conc.start]
-
-/-- A list whose first entry is not older than twelve hours is left alone by `filterEntries`. -/
-theorem filterEntries_young_head (now : Int) (l : List Int)
-    (h : ∀ t, l.head? = some t → now - t ≤ (maxBruteforceAge : Int)) : filterEntries now l = l := by
-  cases l with
-  | nil => rfl
-  | cons e es =>
-    have := h e rfl
-    unfold filterEntries
-    rw [ageCmp_gt]
-    simp; omega
-
-/-- What a passed check leaves behind, extended by failures recorded at the same time, is not pruned
-again. -/
-theorem filterEntries_after_check (now : Int) (es : List Int) (j : Nat) :
-    filterEntries now (filterEntries now es ++ List.replicate j now)
-      = filterEntries now es ++ List.replicate j now := by
-  apply filterEntries_young_head
-  obtain ⟨m, h1, _, _, h4⟩ := filterEntries_eq_drop now es
-  intro t ht
-  rw [h1] at ht
-  cases hd : es.drop m with
-  | nil =>
-    rw [hd] at ht
-    cases j with
-    | zero => simp at ht
-    | succ j =>
-      simp [List.replicate_succ] at ht
-      subst ht
-      have : (0 : Int) ≤ (maxBruteforceAge : Int) := by decide
-      omega
-  | cons e rest =>
-    rw [hd] at ht
-    simp at ht
-    subst ht
-    exact h4 e (by rw [hd]; rfl)
+    obtain ⟨jp, hjp, rfl⟩ := ht
+    simp only at hsec
+    cases hr : jp.1.isRecord with
+    | true => rw [hrec jp hjp hr] at hsec; simp at hsec; subst hsec; exact Or.inr rfl
+    | false => exact checkProgs_good hc jp.2 ((hw jp hjp).2 hr) sec hsec
+  · intro t ht hr
+    simp only [Conc.start, List.mem_map] at ht
+    obtain ⟨jp, hjp, rfl⟩ := ht
+    exact Or.inl (hrec jp hjp hr)
+  · unfold Conc.pendingRec Conc.start
+    simp only [List.length_nil, Nat.zero_add, List.countP_map]
+    apply List.countP_congr
+    intro jp hjp
+    simp only [Function.comp]
+    cases hr : jp.1.isRecord with
+    | true => simp [hrec jp hjp hr]
+    | false => simp
 
 /-- `n` sequential `throttle` calls with the same captured time. -/
 def throttleN (st : State) (now : Int) (k : Key) (a : Action) : Nat → State
